@@ -177,12 +177,18 @@ func (c *completion) complete(args []string) []Completion {
 
 	var opt *Option
 
+	// Set once the parser would treat everything that follows as plain
+	// arguments (after "--", or after the first non-option argument when
+	// PassAfterNonOption is set): no option or command can follow
+	terminated := false
+
 	for len(s.args) > 1 {
 		arg := s.pop()
 
 		if (c.parser.Options&PassDoubleDash) != None && arg == "--" {
 			opt = nil
 			c.skipPositional(s, len(s.args)-1)
+			terminated = true
 
 			break
 		}
@@ -191,53 +197,71 @@ func (c *completion) complete(args []string) []Completion {
 			prefix, optname, islong := stripOptionPrefix(arg)
 			optname, _, argument := splitOption(prefix, optname, islong)
 
-			if argument == nil {
-				var o *Option
-				canarg := true
+			var o *Option
+			canarg := true
 
-				if islong {
-					o = s.lookup.longNames[optname]
-				} else {
-					for i, r := range optname {
-						sname := string(r)
-						o = s.lookup.shortNames[sname]
+			if islong {
+				o = s.lookup.longNames[optname]
+			} else {
+				for i, r := range optname {
+					sname := string(r)
+					o = s.lookup.shortNames[sname]
 
-						if o == nil {
-							break
-						}
-
-						if i == 0 && o.canArgument() && len(optname) != len(sname) {
-							canarg = false
-							break
-						}
+					if o == nil {
+						break
 					}
-				}
 
-				if o == nil && (c.parser.Options&PassAfterNonOption) != None {
-					opt = nil
-					c.skipPositional(s, len(s.args)-1)
-
-					break
-				} else if o != nil && o.canArgument() && !o.OptionalArgument && canarg {
-					if len(s.args) > 1 {
-						s.pop()
-					} else {
-						opt = o
+					if i == 0 && o.canArgument() && len(optname) != len(sname) {
+						canarg = false
+						break
 					}
 				}
 			}
+
+			if o == nil && (c.parser.Options&IgnoreUnknown) != None {
+				// The parser passes an unknown option through as a plain
+				// argument
+				opt = nil
+
+				if len(s.positional) > 0 {
+					if !s.positional[0].isRemaining() {
+						s.positional = s.positional[1:]
+					}
+				} else {
+					s.retargs = append(s.retargs, arg)
+				}
+			} else if argument == nil && o != nil && o.canArgument() && !o.OptionalArgument && canarg {
+				if len(s.args) > 1 {
+					s.pop()
+				} else {
+					opt = o
+				}
+			}
 		} else {
+			opt = nil
+
+			if (c.parser.Options&PassAfterNonOption) != None && s.lookup.commands[arg] == nil {
+				// The parser passes this argument and all following ones
+				// through as plain arguments
+				c.skipPositional(s, len(s.args))
+				terminated = true
+
+				break
+			}
+
 			if len(s.positional) > 0 {
 				if !s.positional[0].isRemaining() {
 					// Don't advance beyond a remaining positional arg (because
 					// it consumes all subsequent args).
 					s.positional = s.positional[1:]
 				}
-			} else if cmd, ok := s.lookup.commands[arg]; ok {
+			} else if cmd, ok := s.lookup.commands[arg]; ok && len(s.command.commands) > 0 && len(s.retargs) == 0 {
 				cmd.fillParseState(s)
+			} else {
+				// A left over argument: like the parser, stop looking
+				// for commands from here on
+				s.retargs = append(s.retargs, arg)
 			}
-
-			opt = nil
 		}
 	}
 
@@ -247,7 +271,7 @@ func (c *completion) complete(args []string) []Completion {
 	if opt != nil {
 		// Completion for the argument of 'opt'
 		ret = c.completeValue(opt.value, "", lastarg)
-	} else if argumentStartsOption(lastarg) {
+	} else if !terminated && argumentStartsOption(lastarg) {
 		// Complete the option
 		prefix, optname, islong := stripOptionPrefix(lastarg)
 		optname, split, argument := splitOption(prefix, optname, islong)
@@ -279,7 +303,7 @@ func (c *completion) complete(args []string) []Completion {
 	} else if len(s.positional) > 0 {
 		// Complete for positional argument
 		ret = c.completeValue(s.positional[0].value, "", lastarg)
-	} else if len(s.command.commands) > 0 {
+	} else if !terminated && len(s.retargs) == 0 && len(s.command.commands) > 0 {
 		// Complete for command
 		ret = c.completeCommands(s, lastarg)
 	}
